@@ -45,6 +45,22 @@ pub struct Ctx {
     pub notes: Vec<String>,
 }
 
+/// path of the incremental witness file (`<report>.partial`): every new signature is appended the
+/// moment it is found, so witnesses survive a process that is killed later
+pub static PARTIAL_PATH: std::sync::Mutex<Option<String>> = std::sync::Mutex::new(None);
+
+fn append_partial(v: &Violation) {
+    if let Ok(g) = PARTIAL_PATH.lock() {
+        if let Some(p) = g.as_ref() {
+            use std::io::Write;
+            if let Ok(mut f) = std::fs::OpenOptions::new().create(true).append(true).open(p) {
+                let line = serde_json::json!({"sig": v.sig, "count": 1, "shard": v.shard, "case_no": v.case_no, "detail": v.detail});
+                let _ = writeln!(f, "{}", line);
+            }
+        }
+    }
+}
+
 thread_local! {
     static LAST_PANIC: RefCell<Option<(String, String)>> = RefCell::new(None);
 }
@@ -191,10 +207,9 @@ impl Ctx {
             return;
         }
         let d = detail();
-        self.violations.insert(
-            key.clone(),
-            Violation { sig: key, detail: d, shard: self.shard, case_no: self.case_no, count: 1 },
-        );
+        let v = Violation { sig: key.clone(), detail: d, shard: self.shard, case_no: self.case_no, count: 1 };
+        append_partial(&v);
+        self.violations.insert(key, v);
     }
 
     // ---------------------------------------------------------------- cross-cutting monitors
